@@ -678,4 +678,89 @@ func genLogic(p *pkgFiles, files map[string]string) {
 	one("ObsReset", "T1: loop bound of observerManager.Reset.", "events.go:observerManager.Reset", genObserverReset)
 	one("Filter", "T1: filter.matches.", "filter.go:filter.matches", genFilterMatches)
 	one("ToTypes", "T1: the arithmetic of bitMask256.toTypes.", "mask256.go:toTypes", genToTypes)
+	one("ShrinkBreak", "T1: when the first loop of storage.Shrink stops.", "storage.go:storage.Shrink", genShrinkBreak)
+}
+
+// genShrinkBreak translates the condition under which the shrinking loop of storage.Shrink stops early:
+// the `if COND { break }` at the end of the body of its first loop.  `time.Since(start)` is the parameter
+// `elapsed`, durations are natural numbers.
+func genShrinkBreak(p *pkgFiles, out *strings.Builder) {
+	where := "storage.go:storage.Shrink"
+	fd := p.findFunc("storage.go", "storage", "Shrink")
+	if fd == nil {
+		problem("%s: not found", where)
+		return
+	}
+	var cond ast.Expr
+	for _, st := range fd.Body.List {
+		var body *ast.BlockStmt
+		switch l := st.(type) {
+		case *ast.RangeStmt:
+			body = l.Body
+		case *ast.ForStmt:
+			body = l.Body
+		}
+		if body == nil {
+			continue
+		}
+		for _, bs := range body.List {
+			if is, ok := bs.(*ast.IfStmt); ok && is.Else == nil && is.Init == nil && len(is.Body.List) == 1 {
+				if br, ok := is.Body.List[0].(*ast.BranchStmt); ok && br.Tok == token.BREAK {
+					if cond != nil {
+						problem("%s: more than one early exit in the shrinking loop", where)
+						return
+					}
+					cond = is.Cond
+				}
+			}
+		}
+		break // the first loop only
+	}
+	if cond == nil {
+		problem("%s: expected `if … { break }` in the first loop", where)
+		return
+	}
+	var tr func(e ast.Expr) string
+	tr = func(e ast.Expr) string {
+		switch x := e.(type) {
+		case *ast.ParenExpr:
+			return "(" + tr(x.X) + ")"
+		case *ast.UnaryExpr:
+			if x.Op == token.NOT {
+				return "(!" + tr(x.X) + ")"
+			}
+		case *ast.Ident:
+			if x.Name == "anyFound" {
+				return "anyFound"
+			}
+		case *ast.BinaryExpr:
+			switch x.Op {
+			case token.LAND:
+				return "(" + tr(x.X) + " && " + tr(x.Y) + ")"
+			case token.LOR:
+				return "(" + tr(x.X) + " || " + tr(x.Y) + ")"
+			case token.EQL, token.NEQ, token.LSS, token.LEQ, token.GTR, token.GEQ:
+				num := func(a ast.Expr) (string, bool) {
+					switch src(a) {
+					case "stopAfter":
+						return "stopAfter", true
+					case "time.Since(start)":
+						return "elapsed", true
+					case "0":
+						return "0", true
+					}
+					return "", false
+				}
+				a, ok1 := num(x.X)
+				b, ok2 := num(x.Y)
+				if ok1 && ok2 {
+					op := map[token.Token]string{token.EQL: "=", token.NEQ: "≠", token.LSS: "<", token.LEQ: "≤", token.GTR: ">", token.GEQ: "≥"}[x.Op]
+					return "(decide (" + a + " " + op + " " + b + "))"
+				}
+			}
+		}
+		problem("%s: condition outside the translated subset: %s", where, src(e))
+		return "false"
+	}
+	fmt.Fprintf(out, "/-- `storage.Shrink`: the shrinking loop stops after the current table iff this holds (`anyFound`: some table\n    so far had work; `stopAfter`: the time limit, 0 = stop after the first table with work; `elapsed`:\n    `time.Since(start)`) -/\ndef shrink_break (anyFound : Bool) (stopAfter elapsed : Nat) : Bool :=\n  %s\n\n", tr(cond))
 }
